@@ -227,6 +227,7 @@ def h_step(E, shape):
         ctx["rec"]["restore"]()
         lg.setLevel(logging.ERROR)
     raised = ctx["rec"]["raised"]
+    E.prove(isinstance(r, boot.mod("step.step_control").StepControlResult), "C06.compute_step_always_returns_a_result")
     # ---- C05: every user-function evaluation and every iterate produced lies in the box
     for (kind, xs, ys, site) in ctx["spec"]["calls"][ncalls:]:
         E.prove(common.in_box(xs, ctx["lb"], ctx["ub"]), "C05.evaluation_point_in_box", info=dict(kind=kind, site=site))
